@@ -139,6 +139,18 @@ def run(chk):
                         chk.run("C04.R4", SITE[eq_type], cfg, go,
                                 construct=f"boundary_loss[{cond},{kind},{'1D' if d == 1 else '2D'},{eq_type}]")
 
+    # the weight is the one of the public `loss_weights` field at evaluation time
+    from ..lossenv import replaced_weights_twin
+    for eq_type in ('statio_PDE', 'nonstatio_PDE'):
+        for kind in ('PINN', 'SPINN'):
+            cfg = {"loss": eq_type, "net": kind, "d": 2, "condition": "dirichlet", "outputs": 2,
+                   "loss_weights": "replaced after construction"}
+
+            def go(eq_type=eq_type, kind=kind):
+                return replaced_weights_twin(lambda: SingleLoss(E, eq_type, kind, d=2, m_u=2, terms=('bc',), bc='dirichlet'),
+                                             'boundary_loss')
+            chk.run("C04.R4", SITE[eq_type], cfg, go, construct="boundary_loss (weights replaced after construction)")
+
     # per-facet dictionaries
     for eq_type in ('statio_PDE', 'nonstatio_PDE'):
         time = eq_type == 'nonstatio_PDE'
